@@ -232,7 +232,7 @@ def c08_groups(tier, tag='C08'):
     gs += translate_unbounded_groups(tag, tier) + translate_watched_groups(tag, tier)
     for (T, B) in ([(8, 2), (2, 3), (1, 1)] if tier == 'quick' else [(t, b) for (t, b) in ks_layouts() if b <= 8]):
         gs.append(Group('%s.LweKeySwitchKey.ctor.unbounded.t=%d.basebit=%d' % (tag, T, B), 'c08_keyswitch.c', 'h_ksctor_unbounded', extract=[('lwekeyswitch.cpp', 'LweKeySwitchKey::LweKeySwitchKey')],
-                        loops=True, defines={'H_KSCTOR_U': None, 'VERIF_T': T, 'VERIF_BASEBIT': B}, timeout=900, instance={'t': T, 'basebit': B, 'n': 'symbolic'}))
+                        loops=True, defines={'H_KSCTOR_U': None, 'VERIF_T': T, 'VERIF_BASEBIT': B}, timeout=900, instance={'t': T, 'basebit': B, 'n': 'symbolic'}, replay=('keyswitch', T, min(B, 4), 3)))
         gs[-1].arb_unwind = 4 * T + 3
     if tier == 'quick':
         lay = [(8, 2), (2, 3), (1, 1), (3, 5), (15, 2), (31, 1), (1, 31)]
@@ -369,11 +369,11 @@ MU = 'multiplication.cpp'
 
 def mult_safety_groups(tag):
     gs = [Group(tag + '.torusPolynomialMultNaive_plain_aux.safety', 'c16_mult.c', 'h_plain', extract=[(MU, 'torusPolynomialMultNaive_plain_aux')],
-                enforce='torusPolynomialMultNaive_plain_aux', loops=True, timeout=1200),
+                enforce='torusPolynomialMultNaive_plain_aux', loops=True, timeout=1200, replay=('mult', 'torusPolynomialMultKaratsuba', 16)),
           Group(tag + '.torusPolynomialMultNaive_aux.safety', 'c16_mult.c', 'h_naive_aux', extract=[(MU, 'torusPolynomialMultNaive_aux')],
-                enforce='torusPolynomialMultNaive_aux', loops=True, timeout=1200),
+                enforce='torusPolynomialMultNaive_aux', loops=True, timeout=1200, replay=('mult', 'naive', 8)),
           Group(tag + '.Karatsuba_aux.safety.recursive', 'c16_mult.c', 'h_kara', extract=[(MU, 'Karatsuba_aux')], enforce='Karatsuba_aux', enforce_rec=True,
-                replace=['torusPolynomialMultNaive_plain_aux'], loops=True, defines={'KARA_CALLEE': None}, timeout=1800,
+                replace=['torusPolynomialMultNaive_plain_aux'], loops=True, defines={'KARA_CALLEE': None}, timeout=1800, replay=('mult', 'torusPolynomialMultKaratsuba', 16),
                 note='every size >= 1: 16*size bytes of scratch suffice for the whole recursion; recursive calls replaced by the same contract')]
     for fn in ['torusPolynomialMultKaratsuba', 'torusPolynomialAddMulRKaratsuba', 'torusPolynomialSubMulRKaratsuba']:
         gs.append(Group('%s.%s.safety' % (tag, fn), 'c16_mult.c', 'h_kwrap', extract=[(MU, fn)], enforce=fn, replace=['Karatsuba_aux'], loops=True,
@@ -587,9 +587,9 @@ def enc_groups(tag):
                 extract=[(LF, 'lweSymDecrypt'), (NF, 'modSwitchToTorus32'), (GB, 'bootsSymEncrypt'), (GB, 'bootsSymDecrypt')], defines={'H_DECRYPT': None})]
     for A in ALPHAS:
         gs.append(Group('%s.lweSymEncrypt.alpha=%s' % (tag, A), 'c03_encrypt.c', 'h_lweSymEncrypt', extract=[(LF, 'lweSymEncrypt', S_)], loops=True,
-                        defines={'H_ENCRYPT': None, 'VERIF_ALPHA': A}, instance={'alpha': A}))
+                        defines={'H_ENCRYPT': None, 'VERIF_ALPHA': A}, instance={'alpha': A}, replay='pairing'))
     gs.append(Group(tag + '.lweSymEncryptWithExternalNoise', 'c03_encrypt.c', 'h_lweSymEncrypt', extract=[(LF, 'lweSymEncryptWithExternalNoise', S_)],
-                    loops=True, defines={'H_ENCRYPT': None, 'EXTERNAL_NOISE': None, 'VERIF_ALPHA': '0x1p-15'}))
+                    loops=True, defines={'H_ENCRYPT': None, 'EXTERNAL_NOISE': None, 'VERIF_ALPHA': '0x1p-15'}, replay='kscreate'))
     return gs
 
 
@@ -603,17 +603,17 @@ def c03_groups(tier, tag='C03'):
         gs.append(Group('%s.decode.M=%d' % (tag, M), 'c03_encrypt.c', 'h_decode', extract=[(NF, 'modSwitchToTorus32'), (NF, 'approxPhase')],
                         defines={'H_DECODE': None, 'VERIF_MSIZE': '%du' % M}, instance={'Msize': M}, replay='numeric'))
     # TLWE wiring (ring products are monitors: assumed exact negacyclic multiply-accumulate)
-    gs.append(Group(tag + '.tLweSymEncrypt', 'c03_encrypt.c', 'h_tLweSymEncrypt', extract=[(TL, 'tLweSymEncrypt')], loops=True, defines={'H_TLWE_ENC': None}))
+    gs.append(Group(tag + '.tLweSymEncrypt', 'c03_encrypt.c', 'h_tLweSymEncrypt', extract=[(TL, 'tLweSymEncrypt')], loops=True, defines={'H_TLWE_ENC': None}, replay='tgswdec'))
     gs.append(Group(tag + '.tLweSymEncryptT', 'c03_encrypt.c', 'h_tLweSymEncrypt', extract=[(TL, 'tLweSymEncryptT')], defines={'H_TLWE_ENC': None, 'ENC_T': None}))
-    gs.append(Group(tag + '.tLwePhase', 'c03_encrypt.c', 'h_tLwePhase', extract=[(TL, 'tLwePhase')], loops=True, defines={'H_TLWE_PHASE': None}))
-    gs.append(Group(tag + '.tLweApproxPhase', 'c03_encrypt.c', 'h_tLweApproxPhase', extract=[(TL, 'tLweApproxPhase')], loops=True, defines={'H_TLWE_PHASE': None}))
+    gs.append(Group(tag + '.tLwePhase', 'c03_encrypt.c', 'h_tLwePhase', extract=[(TL, 'tLwePhase')], loops=True, defines={'H_TLWE_PHASE': None}, replay='tgswdec'))
+    gs.append(Group(tag + '.tLweApproxPhase', 'c03_encrypt.c', 'h_tLweApproxPhase', extract=[(TL, 'tLweApproxPhase')], loops=True, defines={'H_TLWE_PHASE': None}, replay='tgswdec'))
     gs.append(Group(tag + '.tLweSymDecrypt+T', 'c03_encrypt.c', 'h_tLweSymDecrypt', extract=[(TL, 'tLweSymDecrypt'), (TL, 'tLweSymDecryptT')], defines={'H_TLWE_DEC': None}))
     gs.append(Group(tag + '.tGswSymEncrypt+tGswEncryptB', 'c03_encrypt.c', 'h_tGswWrappers', extract=[(TG, 'tGswSymEncrypt'), (TG, 'tGswEncryptB')], defines={'H_TGSWWRAP': None}))
     for (K, L) in ([(1, 2), (2, 3)] if tier == 'quick' else [(1, 1), (1, 2), (1, 3), (1, 4), (2, 2), (2, 3), (3, 2)]):
         gs.append(Group('%s.tGswSymDecrypt.k=%d.l=%d' % (tag, K, L), 'c03_encrypt.c', 'h_tGswSymDecrypt', extract=[(TG, 'tGswSymDecrypt')], loops=True,
                         defines={'H_TGSWDEC': None, 'VERIF_K': K, 'VERIF_L': L}, cbmc=['--memory-leak-check'], instance={'k': K, 'l': L}, replay='tgswdec'))
     # noiseless trivial samples: all-zero mask, b = mu (C14 contract enforced on the real body)
-    gs.append(Group(tag + '.dep.lweNoiselessTrivial', 'c14_lwe.c', 'h_lweNoiselessTrivial', extract=[(LF, 'lweNoiselessTrivial')], enforce='lweNoiselessTrivial', loops=True))
+    gs.append(Group(tag + '.dep.lweNoiselessTrivial', 'c14_lwe.c', 'h_lweNoiselessTrivial', extract=[(LF, 'lweNoiselessTrivial')], enforce='lweNoiselessTrivial', loops=True, replay=('lwe', 'lweNoiselessTrivial')))
     return gs
 
 
@@ -656,9 +656,9 @@ def sampler_state_scan(group):
 def c07_groups(tier, tag='C07'):
     gs = enc_groups(tag)
     gs.append(Group(tag + '.tfhe_createLweBootstrappingKey', 'c03_encrypt.c', 'h_createBootstrappingKey', extract=[(BN_, 'tfhe_createLweBootstrappingKey')],
-                    loops=True, defines={'H_BKCREATE': None}))
+                    loops=True, defines={'H_BKCREATE': None}, replay='gate'))
     gs.append(Group(tag + '.tGswSymEncryptInt', 'c03_encrypt.c', 'h_tGswSymEncryptInt', extract=[(TG, 'tGswSymEncryptInt')], defines={'H_TGSWENC': None}))
-    gs.append(Group(tag + '.tGswEncryptZero', 'c03_encrypt.c', 'h_tGswEncryptZero', extract=[(TG, 'tGswEncryptZero')], loops=True, defines={'H_TGSWZERO': None}))
+    gs.append(Group(tag + '.tGswEncryptZero', 'c03_encrypt.c', 'h_tGswEncryptZero', extract=[(TG, 'tGswEncryptZero')], loops=True, defines={'H_TGSWZERO': None}, replay='tgswdec'))
     for (n_, t_, bb_) in ([(1, 2, 1), (2, 1, 2), (2, 2, 1)] if tier == 'quick' else [(1, 2, 1), (2, 1, 2), (2, 2, 1), (1, 1, 3), (3, 2, 2), (2, 3, 1)]):
         gs.append(Group('%s.lweCreateKeySwitchKey.bounded.n=%d.t=%d.basebit=%d' % (tag, n_, t_, bb_), 'c03_encrypt.c', 'h_b_createKeySwitchKey',
                         extract=[(KS, 'lweCreateKeySwitchKey', S_)], defines={'H_KSCREATE': None, 'VERIF_KS_N': n_, 'VERIF_KS_T': t_, 'VERIF_KS_BB': bb_, 'KS_ALPHA_SYMBOLIC': None},
@@ -684,7 +684,7 @@ def c07_groups(tier, tag='C07'):
     gs.append(sg)
     for A in ['0x1p-25', '7.18e-9']:
         gs.append(Group('%s.tLweSymEncryptZero.alpha=%s' % (tag, A), 'c03_encrypt.c', 'h_tLweSymEncryptZero', extract=[(TL, 'tLweSymEncryptZero')],
-                        loops=True, defines={'H_TLWEZERO': None, 'VERIF_ALPHA': A}, instance={'alpha': A}))
+                        loops=True, defines={'H_TLWEZERO': None, 'VERIF_ALPHA': A}, instance={'alpha': A}, replay='tgswdec'))
     return gs
 
 
